@@ -774,6 +774,10 @@ CONTACTS = ["none", "rest_mu0", "stick_mu", "slide_mu", "open_mu", "two_spheres"
             "ceiling_mu", "ceiling_mu0", "incline_stick", "open_then_stick",
             # sliding exactly along one tangent axis of the contact frame (one component of gamma_F is exactly zero; seeded C16-e)
             "slide_x", "slide_y",
+            # sliding body with principal inertias 1:4:2.5 (the tangential entries of diag(W_F^T M^-1 W_F) differ; found via seeded C18-h)
+            "slide_aniso",
+            # closed but separating contact (g_N = 0, g_N_dot > 0): not persistent, must stay force-free (seeded C16-i)
+            "leaving_mu",
             # a closed contact on the mechanism's own tip body: the contact force loads the joints (seeded C16-f)
             "tip_plane_mu0", "tip_plane_mu"]
 INITS = ["rest", "spin"]
@@ -945,6 +949,10 @@ def build_c16(case):
             mus["ball0_plane"] = 0.3
         if con == "slide_mu":
             v = np.array([0.7, -0.4, 0.0])
+        if con == "slide_aniso":
+            v = np.array([0.7, -0.4, 0.0])
+        if con == "leaving_mu":
+            v = np.array([0.2, -0.1, 0.3])
         if con == "slide_x":
             v = np.array([0.7, 0.0, 0.0])
         if con == "slide_y":
@@ -992,7 +1000,7 @@ def build_c16(case):
             kw = {"B_r_CP": np.array([0.15, 0.1, 0.0])}
             om = np.array([0.0, 0.0, 1.7])
             v = -_cross(om, kw["B_r_CP"])
-        ball = _rb(mb, [th, th, th], ball_pos, [1.0, 0, 0, 0], v=v, omega_I=om, name="ball")
+        ball = _rb(mb, [th, 4 * th, 2.5 * th] if con == "slide_aniso" else [th, th, th], ball_pos, [1.0, 0, 0, 0], v=v, omega_I=om, name="ball")
         s2p = co.Sphere2Plane(plane, ball, mu=mu, r=rad, e_N=0.0, e_F=0.0, name="ball_plane", **kw)
         contr += [ball, fo.Force(np.array([0.0, 0.0, -mb * GRAV]) + ft, ball, name="ball_load"), s2p]
         mus["ball_plane"] = mu
